@@ -230,6 +230,16 @@ func paramFields(fn *ssa.Function, v ssa.Value) []string {
 			if sv := singleStore(y); sv != nil {
 				return rootParam(sv, d+1)
 			}
+			// a local wire/aggregate struct (decoded into, or built field by field): a root of its own
+			if pt, ok := y.Type().(*types.Pointer); ok {
+				if n := namedOf(pt.Elem()); n != nil {
+					if _, isS := n.Underlying().(*types.Struct); isS && n.Obj().Pkg() != nil && strings.HasPrefix(n.Obj().Pkg().Path(), modPath) {
+						if _, isPtrElem := pt.Elem().(*types.Pointer); !isPtrElem && decodedInto(y) {
+							return "local:" + n.Obj().Name(), true
+						}
+					}
+				}
+			}
 		case *ssa.TypeAssert:
 			// msg.Content.(*T): the decoded message body
 			if isMessageContent(y.X) {
@@ -792,3 +802,35 @@ func embeds(outer, inner *types.Named) bool {
 }
 
 func d0(_ *ssa.BasicBlock) int { return 1 }
+
+// decodedInto: the local struct is filled by a decoder (its address is handed to an Unmarshal* function),
+// so its fields are inputs rather than values computed here.
+func decodedInto(a *ssa.Alloc) bool {
+	var check func(v ssa.Value, d int) bool
+	check = func(v ssa.Value, d int) bool {
+		if d > 3 || v.Referrers() == nil {
+			return false
+		}
+		for _, ref := range *v.Referrers() {
+			switch x := ref.(type) {
+			case *ssa.MakeInterface:
+				if check(x, d+1) {
+					return true
+				}
+			case *ssa.Store:
+				// stored into a pointer variable whose address is handed on (cm := &T{}; Unmarshal(data, &cm))
+				if x.Val == v {
+					if pa, ok := x.Addr.(*ssa.Alloc); ok && check(pa, d+1) {
+						return true
+					}
+				}
+			case ssa.CallInstruction:
+				if o := calleeObj(x); o != nil && strings.HasPrefix(o.Name(), "Unmarshal") {
+					return true
+				}
+			}
+		}
+		return false
+	}
+	return check(a, 0)
+}
